@@ -41,7 +41,11 @@ func runC12(c *Ctx) {
 		}
 		ivC, aC, pC, kC := mon.NewCanary(t.iv, 8), mon.NewCanary(t.a, 8), mon.NewCanary(t.p, 8), mon.NewCanary(t.key, 8)
 		var C, T []byte
-		if pi := mon.Guard(func() { C, T, err = sm4.Sm4GCM(kC.Slice(), ivC.Slice(), pC.Slice(), aC.Slice(), true); keep("sm4.Sm4GCM.C", C); keep("sm4.Sm4GCM.T", T) }); pi != nil {
+		if pi := mon.Guard(func() {
+			C, T, err = sm4.Sm4GCM(kC.Slice(), ivC.Slice(), pC.Slice(), aC.Slice(), true)
+			keep("sm4.Sm4GCM.C", C)
+			keep("sm4.Sm4GCM.T", T)
+		}); pi != nil {
 			rep.Violation(fmt.Sprintf("C12/Sm4GCM/encrypt-panic/%s/%s", pi.Func, t.cls), pi.Value, w)
 			rep.Eval(t.cls)
 			return
@@ -81,7 +85,11 @@ func runC12(c *Ctx) {
 		// decrypt the reference ciphertext
 		var P, T2 []byte
 		cC := mon.NewCanary(wantC, 8)
-		if pi := mon.Guard(func() { P, T2, err = sm4.Sm4GCM(t.key, ivC.Slice(), cC.Slice(), aC.Slice(), false); keep("sm4.Sm4GCM(decrypt).P", P); keep("sm4.Sm4GCM(decrypt).T", T2) }); pi != nil {
+		if pi := mon.Guard(func() {
+			P, T2, err = sm4.Sm4GCM(t.key, ivC.Slice(), cC.Slice(), aC.Slice(), false)
+			keep("sm4.Sm4GCM(decrypt).P", P)
+			keep("sm4.Sm4GCM(decrypt).T", T2)
+		}); pi != nil {
 			rep.Violation(fmt.Sprintf("C12/Sm4GCM/decrypt-panic/%s/%s", pi.Func, t.cls), pi.Value, w)
 			rep.Eval(t.cls)
 			return
